@@ -11,9 +11,10 @@ from bctmc import oracles as orc
 from bctmc import named
 from bctmc.runner import guarded
 from bctmc.tally import Tally
+from bctmc import dtypes
 
 PROPERTY = 'C09'
-RULE = ('the structured 7-10 node family of bctmc/named.py (binary and weights {1/8,1}) and all undirected graphs n<=5 and digraphs n<=4 (binary); weights {1/8,1} on 4-node graphs and 3-node digraphs; '
+RULE = ('element types: every routine also on int64 / int32 / uint8 / bool copies of all 3-node digraphs over {0,1} and {0,1,2}, 4-node graphs over {0,1,2} and {-1,0,1}, 5-node binary graphs (same values as for float64; integers must not raise, a boolean matrix may be rejected with TypeError); the structured 7-10 node family of bctmc/named.py (binary and weights {1/8,1}) and all undirected graphs n<=5 and digraphs n<=4 (binary); weights {1/8,1} on 4-node graphs and 3-node digraphs; '
         'signed {-1,-1/8,0,1/8,1} and {-1,-1e-9,0,1e-9,1} (connections weaker than common tolerances) on 4 nodes and {-1,0,1} on 5 nodes for clustering_coef_wu_sign x 3 coef types (thorough: binary n=6, weighted '
         'n=5 und and n=4 dir); non-trivial = graph with at least one triangle and at least one node on no triangle')
 ASSUMPTIONS = ['float64 inputs with empty diagonal; weights 1/8 and 1 (cube roots 1/2 and 1)',
@@ -44,6 +45,17 @@ def named_cases():
     return out
 
 
+ETYPE_FUNCS = [
+    ('clustering_coef_bu', bct.clustering_coef_bu, lambda A, d: not d), ('clustering_coef_bd', bct.clustering_coef_bd, None),
+    ('clustering_coef_wu', bct.clustering_coef_wu, lambda A, d: not d), ('clustering_coef_wd', bct.clustering_coef_wd, None),
+    ('transitivity_bu', bct.transitivity_bu, lambda A, d: not d), ('transitivity_bd', bct.transitivity_bd, None),
+    ('transitivity_wu', bct.transitivity_wu, lambda A, d: not d), ('transitivity_wd', bct.transitivity_wd, None),
+    ('clustering_coef_wu_sign[default]', lambda A: bct.clustering_coef_wu_sign(A, 'default'), lambda A, d: not d),
+    ('clustering_coef_wu_sign[zhang]', lambda A: bct.clustering_coef_wu_sign(A, 'zhang'), lambda A, d: not d),
+    ('clustering_coef_wu_sign[costantini]', lambda A: bct.clustering_coef_wu_sign(A, 'costantini'), lambda A, d: not d),
+]
+
+
 def plan(ctx):
     units = []
     tot = len(named_cases())
@@ -55,6 +67,7 @@ def plan(ctx):
         tot = ss.dir_count(n, alpha) if kind == 'd' else ss.und_count(n, alpha)
         for (a, b) in ss.ranges(tot, max(1, min(800, tot // 60))):
             units.append((name, a, b))
+    units += dtypes.units(dtypes.STD_FAMILIES + [(False, 4, (-1, 0, 1))])
     return units
 
 
@@ -203,10 +216,17 @@ def check_case(t, name, X, case, override=None):
               (ref_zhang(P), ref_zhang(N)), args=('zhang',))
     vec_check(t, 'clustering_coef_wu_sign', dict(case, coef_type='costantini'), bct.clustering_coef_wu_sign, X,
               ref_costantini(X), args=('costantini',), unit_range=False)
+    # every accepted spelling of the option (the source also accepts the capitalised names)
+    vec_check(t, 'clustering_coef_wu_sign', dict(case, coef_type='Zhang'), bct.clustering_coef_wu_sign, X,
+              (ref_zhang(P), ref_zhang(N)), args=('Zhang',))
+    vec_check(t, 'clustering_coef_wu_sign', dict(case, coef_type='Costantini'), bct.clustering_coef_wu_sign, X,
+              ref_costantini(X), args=('Costantini',), unit_range=False)
     return bool((np.any(np_ != 0) or np.any(nn != 0)) and (np.any(np_ == 0) or np.any(nn == 0)))
 
 
 def work(unit):
+    if unit[0] == 'etype':
+        return dtypes.work_unit(PROPERTY, ETYPE_FUNCS, unit)
     name, a, b = unit
     t = Tally(PROPERTY)
     if name == 'named':
@@ -229,6 +249,8 @@ def work(unit):
 
 
 def replay(rec):
+    if rec['case'].get('family') == 'element_types':
+        return dtypes.replay(PROPERTY, ETYPE_FUNCS, rec['case'])
     t = Tally(PROPERTY)
     c = rec['case']
     check_case(t, c['family'], np.array(c['X'], dtype=float), {k: c[k] for k in ('family', 'index', 'X')},
